@@ -266,6 +266,31 @@ ARENA = {
 }
 
 
+ARENA.update({
+    'C14': dict(
+        x=['claimed-handle-allocated', 'claimed-handle-reports-nonzero-stats', 'second-claim-did-not-panic',
+           'claimed-handle-not-claimed', 'handle-still-claimed-after-guard-dropped', 'block-contents-changed', 'panic'],
+        mism=['result-kind', 'handle-stats', 'stats', 'result-block'],
+        note='claims: all clauses proved over the model (invariant through claims PARTIAL as C01)'),
+    'C15': dict(
+        x=['prepare-moved-a-bump-position', 'prepared-capacity-smaller-than-requested', 'committed-slice-lost-contents',
+           'commit-advanced-position-by-more-than-contents-plus-padding', 'block-contents-changed', 'live-blocks-overlap', 'panic'],
+        mism=['prepared-range', 'result-block', 'block-contents', 'stats'],
+        note='PARTIAL: prepare/fill/commit primitives (typed+dyn, forward+reverse) proved; the collection layer (growth policy) is not in this model'),
+    'C17': dict(
+        x=['panic', 'block-misaligned', 'live-blocks-overlap'],
+        mism=['result-block', 'result-kind', 'prepared-range', 'stats', 'block-contents'],
+        note='PARTIAL: hint independence and dyn=typed commit proved; try_/panicking twins and Bump/BumpScope/reference forwarding are tied by running all entry points against one model function'),
+    'C18': dict(
+        x=['position-not-multiple-of-min-align', 'scoped-aligned-exit-not-exactly-entry-position', 'block-contents-changed',
+           'block-misaligned', 'live-blocks-overlap', 'panic'],
+        mism=['stats', 'result-block'],
+        note='PARTIAL: entry/exit alignment proved; with_settings panic conditions and compile-time rejections not modelled'),
+})
+# properties that need the extended harness (claims, aligned regions, prepared slices, dyn entry points)
+ARENA_X = {'C14', 'C15', 'C17', 'C18'}
+
+
 def split_runs(path):
     """trace file -> {run header line: [lines]}"""
     runs = {}
@@ -292,20 +317,22 @@ def script_prefix(lines, upto_line):
     return out
 
 
-def run_arena(ctx, runs, ops, seeds, script=None, builds=(False, True)):
+def run_arena(ctx, runs, ops, seeds, script=None, builds=(False, True), binname='arena', extra=''):
     """returns dict(summary, implx=[(build, runhdr, cfg, xline)], mism=[(build, line)], ub=[...], crashes=[...], traces={build: path})"""
-    res = {'summary': {'runs': 0, 'steps': 0, 'mismatches': 0, 'impl_monitor_failures': 0, 'model_ub': 0,
+    res = {'binname': binname, 'summary': {'runs': 0, 'steps': 0, 'mismatches': 0, 'impl_monitor_failures': 0, 'model_ub': 0,
                        'nontrivial_steps': 0, 'configs': 0, 'ops': {}, 'paths': {}},
            'implx': [], 'mism': [], 'ub': [], 'crashes': [], 'traces': {}, 'samples': []}
     for release in builds:
-        exe = ctx.cargo_build('arena', release=release)
+        exe = ctx.cargo_build(binname, release=release)
         if exe is None:
             return None
         b = 'release' if release else 'debug'
         for sd in seeds:
-            trace = os.path.join(CACHE, 'arena_%s_%s_%d.txt' % (ctx.pid, b, sd))
+            trace = os.path.join(CACHE, '%s_%s_%s_%d.txt' % (binname, ctx.pid, b, sd))
             if script:
                 cmd = '%s --script %s > %s' % (exe, script, trace)
+            elif extra:
+                cmd = '%s %s > %s' % (exe, extra, trace)
             else:
                 cmd = '%s --seed %d --runs %d --ops %d > %s' % (exe, sd, runs, ops, trace)
             rc, out, dt = sh(cmd, timeout=1800)
@@ -374,6 +401,7 @@ def arena_verdict(ctx, pid, res, conf):
         ctx.violations.append({
             'kind': 'arena-history', 'build': b, 'run': hdr, 'config': cfgl, 'what_fails': xline,
             'script': script_prefix(lines, xline),
+            'harness': res.get('binname', 'arena'),
             'signature': 'arena:%s' % k,
             'how_to_replay': 'tools/vcheck %s --replay <this file>' % pid,
         })
@@ -410,13 +438,18 @@ def check_arena(ctx):
     if ctx.build_driver():
         runs, ops = (240, 60) if ctx.tier == 'quick' else (4000, 100)
         seeds = [ctx.seed] if ctx.tier == 'quick' else [ctx.seed, ctx.seed + 1000003]
-        res = run_arena(ctx, runs, ops, seeds)
+        binname = 'arena_x' if pid in ARENA_X else 'arena'
+        res = run_arena(ctx, runs, ops, seeds, binname=binname)
+        if res is not None and pid in ARENA_X and ctx.tier == 'thorough':
+            res_b = run_arena(ctx, runs, ops, seeds, binname='arena')
+            if res_b is not None:
+                arena_verdict(ctx, pid, res_b, conf)
         if res is not None:
             rel = arena_verdict(ctx, pid, res, conf)
             if (rel or ctx.problems) and not ctx.violations:
                 ctx.say('proof or tie broken: searching for a concrete failing history')
                 ctx.problems = [p for p in ctx.problems if p[0] != 'tie']
-                res2 = run_arena(ctx, 3000, 120, [ctx.seed + 7, ctx.seed + 77])
+                res2 = run_arena(ctx, 3000, 120, [ctx.seed + 7, ctx.seed + 77], binname=binname)
                 if res2 is not None:
                     rel2 = arena_verdict(ctx, pid, res2, conf)
                     for k in ('runs', 'steps', 'nontrivial_steps'):
@@ -446,12 +479,17 @@ def replay_arena(ctx, path):
     if r.get('kind') != 'arena-history' or not r.get('script'):
         print(json.dumps(r, indent=1)[:3000])
         return check_arena(ctx)
-    sp = os.path.join(CACHE, 'replay_script_%s.txt' % ctx.pid)
-    with open(sp, 'w') as f:
-        f.write('\n'.join(r['script']) + '\n')
     if not ctx.build_driver():
         return 1
-    res = run_arena(ctx, 0, 0, [0], script=sp)
+    if r.get('harness') == 'arena_x':
+        # `RUN i cfg seed overgrant ops`: the extended harness regenerates the run from its seed
+        f = r['run'].split()
+        res = run_arena(ctx, 0, 0, [0], binname='arena_x', extra='--cfg %s --run-seed %s --runs 1 --ops %s' % (f[2], f[3], f[5]))
+    else:
+        sp = os.path.join(CACHE, 'replay_script_%s.txt' % ctx.pid)
+        with open(sp, 'w') as fh:
+            fh.write('\n'.join(r['script']) + '\n')
+        res = run_arena(ctx, 0, 0, [0], script=sp)
     arena_verdict(ctx, ctx.pid, res, ARENA[ctx.pid])
     for v in ctx.violations[:3]:
         print('reproduced:', v.get('what_fails'))
